@@ -36,7 +36,12 @@ static std::atomic<uint64_t> g_checks[NID], g_viol[NID];
 static std::mutex g_first_mtx;
 static std::string g_first;
 static thread_local std::vector<const void*> t_held;
-static thread_local const void* t_sleeper;   // the thread of the last LS_TH_SLEEP on this OS thread (CURRENT has already moved on at LS_WAITQ_PUSH)
+static thread_local const void* t_sleeper;
+static thread_local std::unordered_map<const void*, uint64_t> t_epoch;   // lock -> number of acquisitions by this OS thread
+struct CasInfo { bool held; uint64_t epoch; };
+static thread_local std::unordered_map<const void*, CasInfo> t_lastcas;  // mutex -> state at its last owner-CAS by this OS thread
+static std::unordered_map<const void*, const void*> g_mutex_splock;       // mutex -> its splock (read-only during a run)
+static std::unordered_map<const void*, const void*> g_q_mutex;            // mutex wait queue -> mutex   // the thread of the last LS_TH_SLEEP on this OS thread (CURRENT has already moved on at LS_WAITQ_PUSH)
 
 // registry: wait-queue address -> what must ALSO be held when a thread is appended to it
 struct Req { int kind; const void* p; };   // kind 1: spinlock p held; kind 2: photon mutex p owned by CURRENT
@@ -50,7 +55,7 @@ static void viol(int id, const char* what, const void* obj) {
     if (g_first.empty()) { char b[256]; snprintf(b, sizeof b, "rule %d: %s", id, what); g_first = b; }
 }
 static void ls_cb(int id, const void* obj, const void* l1, const void* l2) {
-    if (id == LS_LOCK_ACQ) { t_held.push_back(obj); return; }
+    if (id == LS_LOCK_ACQ) { t_held.push_back(obj); t_epoch[obj]++; return; }
     if (id == LS_LOCK_REL) {
         for (size_t i = t_held.size(); i-- > 0;) if (t_held[i] == obj) { t_held.erase(t_held.begin() + i); return; }
         g_checks[0]++;   // released by an OS thread that did not acquire it (informational, id 0)
@@ -61,7 +66,23 @@ static void ls_cb(int id, const void* obj, const void* l1, const void* l2) {
     if (id == LS_TH_SLEEP) t_sleeper = obj;
     if (l1 && !held(l1)) viol(id, "first protecting lock not held at the access", obj);
     if (l2 && !held(l2)) viol(id, "second protecting lock not held at the access", obj);
+    if (id == LS_TH_DISPOSE) {   // the stack is released: the lock dies with the thread object
+        for (size_t i = t_held.size(); i-- > 0;) if (t_held[i] == l1) { t_held.erase(t_held.begin() + i); break; }
+    }
+    if (id == LS_MUTEX_CAS) {
+        auto it = g_mutex_splock.find(obj);
+        if (it != g_mutex_splock.end()) t_lastcas[obj] = CasInfo{held(it->second), t_epoch[it->second]};
+    }
     if (id == LS_WAITQ_PUSH) {
+        auto qm = g_q_mutex.find(obj);
+        if (qm != g_q_mutex.end()) {
+            // mutex slow path: the failed owner-CAS and the enqueue are ONE block under splock
+            auto sp = g_mutex_splock[qm->second];
+            auto lc = t_lastcas.find(qm->second);
+            if (lc == t_lastcas.end() || !lc->second.held || lc->second.epoch != t_epoch[sp])
+                viol(LS_MUTEX_CAS, "mutex waiter enqueued although its last owner-CAS was not made in the same splock section (check-then-enqueue not atomic)", obj);
+            else g_checks[LS_MUTEX_CAS]++;
+        }
         auto it = g_req.find(obj);
         if (it != g_req.end()) {
             if (it->second.kind == 1 && !held(it->second.p))
@@ -133,6 +154,9 @@ static std::string run_case(uint64_t seed, int nvcpu, int nth, int nops) {
         g_req[(const void*)&static_cast<photon::waitq&>(w->s[k]).q] = Req{1, &w->s[k].splock};
     }
     g_req[(const void*)&static_cast<photon::waitq&>(w->cm).q] = Req{1, &w->cm.splock};
+    g_mutex_splock.clear(); g_q_mutex.clear();
+    { photon::mutex* ms[] = {&w->m[0], &w->m[1], &w->cm, &w->rw.mtx};
+      for (auto m : ms) { g_mutex_splock[m] = &m->splock; g_q_mutex[(const void*)&static_cast<photon::waitq&>(*m).q] = m; } }
     g_req[(const void*)&static_cast<photon::waitq&>(w->cvm).q] = Req{2, &w->cm};
     g_req[(const void*)&static_cast<photon::waitq&>(w->cvs).q] = Req{1, &w->cs};
     g_req[(const void*)&static_cast<photon::waitq&>(w->rw.mtx).q] = Req{1, &w->rw.mtx.splock};
